@@ -313,3 +313,5 @@ class C18(Check):
 
 
 CHECK = C18()
+# scope added in later rounds, kept in the evidence text
+CHECK.rule += ' Scaffolds that list the same contig interval twice (rows equal by value, distinct objects).'
